@@ -364,7 +364,9 @@ class ElementNode(XmlNode):
             objects: The list of intermediate parsed objects
         """
         pos = self.position
-        params[var.name] = list(starmap(self.prepare_generic_value, objects[pos:]))
+        params[var.name] = PendingCollection(
+            starmap(self.prepare_generic_value, objects[pos:]), var.factory
+        )
         del objects[pos:]
 
     def prepare_generic_value(self, qname: str | None, value: Any) -> Any:
